@@ -991,7 +991,8 @@ def evalFor (fuel : Nat) (ctx : Ctx) : PM Stmt :=
           let _ ← eat
           let v ← eat
           if v.ty != TT_IDENTIFIER then err else
-          if !(isNewVar ctx pfx v.val) then err else pure v.val
+          if !(isNewVar ctx pfx v.val) then err else
+          if v.val == t0.val then err else pure v.val
         else pure "")
       let si ← eat
       if si.ty != TT_SHORT_INIT_OPERATOR then err else
